@@ -19,7 +19,7 @@ ASSUMPTIONS = [
 CASES = {"quick": 120000, "thorough": 2000000}
 MIN_CASES = {"quick": 25000, "thorough": 30000}
 REQUIRED_COUNTERS = ["assignments_checked", "solve_checked", "model_checked", "posted:clause", "posted:imply", "posted:amo_quadratic", "posted:amo_heule",
-                     "posted:pb_plain", "posted:pb_decomposed", "op:>=", "op:<=", "op:>", "op:<", "op:=", "refused", "history_encodings"]
+                     "posted:pb_plain", "posted:pb_decomposed", "op:>=", "op:<=", "op:>", "op:<", "op:=", "refused", "history_encodings", "posted:huge_coefficients_decomposed", "posted:huge_coefficients_plain"]
 VARS = ["x0", "x1", "x2", "x3", "x4", "x5", "x6", "x7", "x8", "x9"]
 
 _sat = _pb = _Solver = None
@@ -40,10 +40,20 @@ def gen_pb(rng, nv, big=False):
     nt = rng.choice([1, 1, 2, 3, 4, 5, 6, 7, 8])
     cmax = 60 if big else 9
     terms = []
+    op = rng.choice([">=", ">=", "<=", "<=", ">", "<", "="])
+    if rng.random() < 0.08:
+        # huge coefficients next to powers of two (cell areas in fixed point reach 2^50 and beyond): few terms, bound at a subset sum
+        for _ in range(rng.choice([1, 2, 2, 3, 4])):
+            k = rng.randint(20, 62)
+            c = rng.choice([-1, 1, 1, 1]) * ((1 << k) + rng.choice([-1, -1, 0, 1]))
+            terms.append([c] + _lit(rng, nv))
+        if rng.random() < 0.5:
+            terms.append([rng.choice([1, 1, 2, 3])] + _lit(rng, nv))
+        sub = sum(t[0] for t in terms if rng.random() < 0.5)
+        return {"k": "pb", "terms": terms, "op": op, "bound": sub + rng.choice([-1, 0, 0, 1]), "decomp": rng.random() < 0.6, "variant": rng.choice([0, 0, 0, 1, 2, 3, 4, 4, 5]), "huge": True}
     for _ in range(nt):
         c = rng.randint(-cmax, cmax) if rng.random() < 0.85 else rng.choice([0, 1, -1])
         terms.append([c] + _lit(rng, nv))
-    op = rng.choice([">=", ">=", "<=", "<=", ">", "<", "="])
     s_pos = sum(t[0] for t in terms if t[0] > 0)
     s_neg = sum(t[0] for t in terms if t[0] < 0)
     r = rng.random()
@@ -208,6 +218,8 @@ def check(case, ctx):
             post(sm, c, lit)
             posted.append(c)
             ctx.count("posted:" + kind)
+            if c.get("huge"):
+                ctx.count("posted:huge_coefficients_" + ("decomposed" if c["decomp"] else "plain"))
         except Exception as e:
             if c["k"] == "pb":
                 ctx.count("refused")
